@@ -4,4 +4,5 @@ CONSTANTS
     Contents <- ContentsDef
     Size <- SizeDef
     Routes = {"object", "index"}
+    Spellings = {"plain", "slash", "rel"}
 INVARIANT Inv_C02
